@@ -17,6 +17,7 @@ import (
 	"math/big"
 	mrand "math/rand"
 	"runtime"
+	"runtime/debug"
 	"sort"
 	"strings"
 	"sync"
@@ -54,6 +55,9 @@ var fetcherEvents = []string{
 	"poolA1", "poolA2", "poolA12", "poolA3", "poolB1", "poolB2", "poolB12", "poolB3",
 	"rmA", "rmB", "addA", "addB",
 	"T1", "T2",
+	// scheduling of the request goroutines the loop spawns (no synchronisation with Receive/RemovePeer):
+	// "park" = the next request call is delayed (held at the checker's gate), "late" = it runs only now
+	"park", "late",
 }
 
 var (
@@ -92,6 +96,22 @@ type fworld struct {
 	fences   int
 	// a removed peer still listed as origin of a hash (observation)
 	staleOrigin string
+	// request goroutines (calls of the real fetchTxs callback through the wrapper)
+	gmu       sync.Mutex
+	armed     bool        // the next call will be parked
+	parked    *parkedCall // at most one
+	started   int64
+	returned  int64
+	errs      int64
+	errsSeen  int64
+	reqPanic  atomic.Value // string
+	lateCalls int64
+}
+
+type parkedCall struct {
+	peer   string
+	hashes []string
+	gate   chan struct{}
 }
 
 func peerLabel(id string) string {
@@ -117,6 +137,36 @@ func newFWorld() *fworld {
 	w.f = w.r.VerifC18Fetcher()
 	w.clock = &countingClock{Simulated: new(mclock.Simulated)}
 	step := fetcher.VerifC18Instrument(w.f, w.clock, mrand.New(mrand.NewSource(1)))
+	fetcher.VerifC18WrapFetch(w.f, func(orig func(string, []common.Hash) error) func(string, []common.Hash) error {
+		return func(peer string, hashes []common.Hash) (err error) {
+			w.gmu.Lock()
+			var gate chan struct{}
+			if w.armed && w.parked == nil {
+				pc := &parkedCall{peer: peer, gate: make(chan struct{})}
+				for _, h := range hashes {
+					pc.hashes = append(pc.hashes, fxName[h])
+				}
+				w.parked, w.armed, gate = pc, false, pc.gate
+			}
+			w.gmu.Unlock()
+			atomic.AddInt64(&w.started, 1)
+			if gate != nil {
+				<-gate // a delayed thread: it runs when the checker's "late" event says so
+			}
+			defer func() {
+				if p := recover(); p != nil {
+					// in production this goroutine has no recover: the process dies
+					w.reqPanic.Store(fmt.Sprintf("%v at %s", short(fmt.Sprint(p), 200), panicSite(string(debug.Stack()))))
+					err = nil // the goroutine is gone; it does not go on to Drop the peer
+				}
+				if err != nil {
+					atomic.AddInt64(&w.errs, 1)
+				}
+				atomic.AddInt64(&w.returned, 1)
+			}()
+			return orig(peer, hashes)
+		}
+	})
 	go func() {
 		for {
 			select {
@@ -151,6 +201,16 @@ func (w *fworld) close() {
 	// peers are removed one settled event at a time: RemovePeer unregisters the peer BEFORE it tells the
 	// fetcher, and a request the loop schedules in between dereferences the missing peer in fetchTx (a
 	// race of the repository, outside the sequential event model of this search; see notes.go)
+	if w.dead() == "" {
+		guarded(func() { w.apply("late") })
+	} else {
+		w.gmu.Lock()
+		if w.parked != nil {
+			close(w.parked.gate)
+			w.parked = nil
+		}
+		w.gmu.Unlock()
+	}
 	for _, n := range []string{"A", "B"} {
 		if w.reg[n] && w.dead() == "" {
 			guarded(func() { w.apply("rm" + n) })
@@ -165,7 +225,19 @@ func (w *fworld) dead() string {
 	if s, ok := w.panicked.Load().(string); ok {
 		return s
 	}
+	if s, ok := w.reqPanic.Load().(string); ok {
+		return s
+	}
 	return ""
+}
+
+func (w *fworld) parkedNow() int64 {
+	w.gmu.Lock()
+	defer w.gmu.Unlock()
+	if w.parked != nil {
+		return 1
+	}
+	return 0
 }
 
 func (w *fworld) dump() *fetcher.VerifC18Dump {
@@ -216,29 +288,47 @@ func (w *fworld) settle(c0 int64, e int64) error {
 	if w.dead() != "" {
 		return nil
 	}
-	// fence: a Drop of a peer the fetcher never heard of is a read-only iteration
-	if err := w.f.Drop("c18-fence"); err != nil {
-		return fmt.Errorf("harness: fence refused: %v", err)
-	}
-	target++
-	if err := w.waitFor(func() bool { return atomic.LoadInt64(&w.iters) >= target }, "the fence iteration"); err != nil {
-		return err
-	}
-	if got := atomic.LoadInt64(&w.iters); got != target && w.dead() == "" {
-		return fmt.Errorf("harness: the loop completed %d iterations where %d were expected (the event reached the loop although Notify's filter said it would not, or vice versa)", got, target)
-	}
-	// requests the loop decided on are sent by short-lived goroutines
-	d := w.dump()
-	for p, r := range d.Requests {
-		if r.Dangling {
-			continue
+	for round := 0; round < 8; round++ {
+		// fence: a Drop of a peer the fetcher never heard of is a read-only iteration
+		if err := w.f.Drop("c18-fence"); err != nil {
+			return fmt.Errorf("harness: fence refused: %v", err)
 		}
-		if pr, ok := w.prev.Requests[p]; !ok || pr.Dangling || strings.Join(pr.Hashes, ",") != strings.Join(r.Hashes, ",") {
-			w.reqWant++
+		target++
+		if err := w.waitFor(func() bool { return atomic.LoadInt64(&w.iters) >= target }, "the fence iteration"); err != nil {
+			return err
+		}
+		if got := atomic.LoadInt64(&w.iters); got != target && w.dead() == "" {
+			return fmt.Errorf("harness: the loop completed %d iterations where %d were expected (the event reached the loop although Notify's filter said it would not, or vice versa)", got, target)
+		}
+		// the request goroutines the loop spawned: each either runs to completion or sits at the gate
+		d := w.dump()
+		for p, r := range d.Requests {
+			if r.Dangling {
+				continue
+			}
+			if pr, ok := w.prev.Requests[p]; !ok || pr.Dangling || strings.Join(pr.Hashes, ",") != strings.Join(r.Hashes, ",") {
+				w.reqWant++
+			}
+		}
+		w.prev = d
+		if err := w.waitFor(func() bool { return atomic.LoadInt64(&w.returned)+w.parkedNow() >= w.reqWant }, "the request goroutine's call"); err != nil {
+			return err
+		}
+		if w.dead() != "" {
+			return nil
+		}
+		// a request call that failed makes its goroutine Drop the peer: one more iteration each
+		newErrs := atomic.LoadInt64(&w.errs) - w.errsSeen
+		if newErrs == 0 {
+			return nil
+		}
+		w.errsSeen += newErrs
+		target += newErrs
+		if err := w.waitFor(func() bool { return atomic.LoadInt64(&w.iters) >= target }, "the Drop after a failed request"); err != nil {
+			return err
 		}
 	}
-	w.prev = d
-	return w.waitFor(func() bool { return atomic.LoadInt64(&w.reqSends) >= w.reqWant }, "the request to the peer")
+	return fmt.Errorf("harness: the fetcher did not settle in 8 rounds")
 }
 
 func txsOf(spec string) []*types.Transaction {
@@ -261,6 +351,33 @@ func (w *fworld) apply(ev string) error {
 		f0 := atomic.LoadInt64(&w.clock.fired)
 		w.clock.Run(d)
 		return w.settle(c0, atomic.LoadInt64(&w.clock.fired)-f0)
+	case ev == "park":
+		w.gmu.Lock()
+		if w.parked == nil {
+			w.armed = true
+		}
+		w.gmu.Unlock()
+		return nil
+	case ev == "late":
+		w.gmu.Lock()
+		pc := w.parked
+		w.parked = nil
+		w.gmu.Unlock()
+		if pc == nil {
+			return nil
+		}
+		w.lateCalls++
+		r0 := atomic.LoadInt64(&w.returned)
+		close(pc.gate)
+		if err := w.waitFor(func() bool { return atomic.LoadInt64(&w.returned) > r0 }, "the released request call"); err != nil {
+			return err
+		}
+		if w.dead() != "" {
+			return nil
+		}
+		newErrs := atomic.LoadInt64(&w.errs) - w.errsSeen
+		w.errsSeen += newErrs
+		return w.settle(c0, newErrs)
 	case strings.HasPrefix(ev, "rm"):
 		n := ev[2:]
 		w.r.RemovePeer(w.peers[n], "removed by the checker")
@@ -503,7 +620,13 @@ func (w *fworld) key(d *fetcher.VerifC18Dump) string {
 			x.Reg = append(x.Reg, n)
 		}
 	}
-	return s + "|pool=" + strings.Join(x.Pool, ",") + "|reg=" + strings.Join(x.Reg, ",")
+	w.gmu.Lock()
+	sched := fmt.Sprintf("|armed=%v", w.armed)
+	if w.parked != nil {
+		sched += "|parked=" + peerLabel(w.parked.peer) + ":" + strings.Join(w.parked.hashes, ",")
+	}
+	w.gmu.Unlock()
+	return s + "|pool=" + strings.Join(x.Pool, ",") + "|reg=" + strings.Join(x.Reg, ",") + sched
 }
 
 func seqOf(cs *caseT) []string { return strings.Fields(cs.Desc) }
@@ -516,6 +639,11 @@ func (e *otherEnv) runFetcherSeq(cs *caseT) *outcome {
 	w := newFWorld()
 	defer w.close()
 	seq := seqOf(cs)
+	if len(seq) == 0 {
+		// the initial state (both peers registered, nothing tracked)
+		out.StateKey, out.Stage = w.key(w.prev), "fetcher:idle"
+		return out
+	}
 	for i, ev := range seq {
 		last := i == len(seq)-1
 		pend0, q0 := w.pool.Stats()
@@ -535,8 +663,13 @@ func (e *otherEnv) runFetcherSeq(cs *caseT) *outcome {
 		}
 		if dead := w.dead(); dead != "" {
 			if last {
-				out.viol("fetcher-goroutine-panic", "the transaction fetcher's loop goroutine (no recover in production: the process dies) panicked: %s", dead)
-				out.Stage = "fetcher:loop-panic"
+				if rp, ok := w.reqPanic.Load().(string); ok {
+					out.viol("request-goroutine-panic", "a request goroutine spawned by the fetcher's loop (`go func(){ f.fetchTxs(peer, hashes) }` in scheduleFetches, no recover: the process dies) panicked in the real callback: %s", rp)
+					out.Stage = "fetcher:request-goroutine-panic"
+				} else {
+					out.viol("fetcher-goroutine-panic", "the transaction fetcher's loop goroutine (no recover in production: the process dies) panicked: %s", dead)
+					out.Stage = "fetcher:loop-panic"
+				}
 			}
 			return out
 		}
@@ -591,6 +724,7 @@ func (e *otherEnv) runFetcherSeq(cs *caseT) *outcome {
 		}
 		pend1, q1 := w.pool.Stats()
 		out.StateKey = w.key(d)
+		out.LateCalls = int(w.lateCalls)
 		switch {
 		case pend1+q1 > pend0+q0:
 			out.Stage = "fetcher:tx-added"
@@ -632,6 +766,9 @@ func genFetcher(w *worker, first string, depth int, emit func(*caseT)) {
 		w.res.Notes["fetcher-distinct-states"]++
 		frontier = append(frontier, seq)
 	}
+	// sequences whose first event changes nothing are covered, one event shorter, by the other units
+	try(nil)
+	frontier = nil
 	try([]string{first})
 	for level := 1; level < depth; level++ {
 		cur := frontier
